@@ -11,6 +11,7 @@ import (
 	"encoding/json"
 	"fmt"
 	"os"
+	"sort"
 	"strings"
 	"testing"
 	"time"
@@ -141,7 +142,7 @@ func req(id uint16, name string, v interface{}) []byte {
 	return mqttref.Publish(id, "emitter/"+name+"/", b, 1, false)
 }
 
-func genInputs(r *vk.Rand, key, master string, n int) []hin {
+func genInputs(r *vk.Rand, key, master string, n int, tkeys map[string]string) []hin {
 	var out []hin
 	add := func(kind string, b []byte) { out = append(out, hin{kind, b}) }
 	valid := [][]byte{
@@ -197,6 +198,34 @@ func genInputs(r *vk.Rand, key, master string, n int) []hin {
 	add("extreme/64k-topic", session(key, mqttref.Subscribe(1, key+"/"+strings.Repeat("a/", 30000))))
 	add("extreme/64k-topic-publish", session(key, mqttref.Publish(1, key+"/"+strings.Repeat("a", 65000)+"/", []byte("x"), 1, false)))
 	add("extreme/deep-channel", session(key, mqttref.Subscribe(1, key+"/"+strings.Repeat("a/", 500)), mqttref.Publish(2, key+"/"+strings.Repeat("a/", 500), []byte("x"), 1, true)))
+	// channels of every depth around the limits of the key format (the bit-path of a key target has 23 positions), on every
+	// place a channel can be named, with keys whose target is the root, exact, a '#/' sub-tree and a wildcard level
+	tnames := make([]string, 0, len(tkeys))
+	for t := range tkeys {
+		tnames = append(tnames, t)
+	}
+	sort.Strings(tnames)
+	for _, tname := range tnames {
+		k := tkeys[tname]
+		prefix := strings.TrimSuffix(strings.ReplaceAll(tname, "+", "p"), "#/")
+		for _, depth := range []int{1, 2, 3, 21, 22, 23, 24, 25, 26, 31, 32, 33, 64, 100} {
+			for shape, lvl := range []string{"x/", "+/"} {
+				ch := prefix + strings.Repeat(lvl, depth)
+				if shape == 1 && depth > 26 {
+					continue
+				}
+				kind := fmt.Sprintf("extreme/deep-channel/%s", map[int]string{0: "literal", 1: "wildcard"}[shape])
+				add(kind, session(k, mqttref.Subscribe(1, k+"/"+ch), mqttref.Unsubscribe(2, k+"/"+ch)))
+				add(kind, session(k, mqttref.Publish(1, k+"/"+ch, []byte("x"), 1, depth%2 == 0)))
+				add(kind, append([]byte{'C'}, mqttref.Connect("w", "", &mqttref.Will{Topic: k + "/" + ch, Payload: []byte("bye"), Retain: depth%2 == 1})...))
+				add(kind, session(k, req(1, "link", map[string]interface{}{"name": "dl", "key": k, "channel": ch, "subscribe": true}), mqttref.Publish(2, "dl", []byte("x"), 1, false)))
+				add(kind, session(k, req(1, "presence", map[string]interface{}{"key": k, "channel": ch, "status": true, "changes": true})))
+				add(kind, session(k, req(1, "history", map[string]interface{}{"key": k, "channel": k + "/" + ch + "?last=3"})))
+				add(kind, session(k, req(1, "keygen", map[string]interface{}{"key": master, "channel": ch, "type": "rwe", "ttl": 60}), req(2, "keygen", map[string]interface{}{"key": k, "channel": ch, "type": "rw"})))
+				add(kind, session(k, req(1, "keyban", map[string]interface{}{"secret": master, "target": k, "banned": false})))
+			}
+		}
+	}
 	for _, sz := range []int{65000, 65400, 65500, 65520} {
 		add("extreme/large-payload", session(key, mqttref.Subscribe(1, key+"/big/"), mqttref.Publish(2, key+"/big/", []byte(strings.Repeat("p", sz)), 1, false)))
 		add("extreme/large-payload-via-link", session(key, req(1, "link", map[string]interface{}{"name": "zz", "key": key, "channel": "big/", "subscribe": true}), mqttref.Publish(2, "zz", []byte(strings.Repeat("p", sz)), 1, false)))
@@ -350,13 +379,17 @@ func TestC09(t *testing.T) {
 	}
 	key := pb.MustKey("#/", brokerlab.Perms("rwlsp"))
 	master := pb.Master
+	tkeys := map[string]string{"#/": key}
+	for _, t := range []string{"a/b/c/", "a/#/", "+/b/", "a/"} {
+		tkeys[t] = pb.MustKey(t, brokerlab.Perms("rwlspe"))
+	}
 	licStr := pb.LicString
 	contract := pb.Contract
 	pb.Close()
 	shard, nsh := vk.Shard()
 	r := vk.NewRand(vk.Seed(), "C09", shard)
 	n := vk.N(3000, 120000) / nsh
-	ins := genInputs(r, key, master, n)
+	ins := genInputs(r, key, master, n, tkeys)
 	// frames addressed to the canary's channel (the child subscribes to canary/ under the same licence)
 	cq := security.ParseChannel([]byte("k/canary/")).Query
 	var filled []hin
